@@ -386,3 +386,9 @@ Fixpoint exec (s : stmt) (en : env) {struct s} : outcome :=
       | None => None
       end
   end.
+
+(* the whole assertion, as fn expand arranges it: a root `_` asserts nothing but still evaluates the asserted expression
+   (`let _ = &(value);`); every other root pattern is its own expansion applied to the asserted expression *)
+Definition exec_top (join_ok : bool) (p : pat) (value : list tok) (en : env) : outcome :=
+  if is_wild p then match eval en (VRoot value) with Some (_, t) => Some ([], t) | None => None end
+  else exec (expand join_ok p (VRoot value)) en.
